@@ -37,6 +37,8 @@ Exec ==
           \* successor of the previous one, or a restart from an earlier one; never a jump over a command that has
           \* not run in this pass
           /\ Report((IF \E k \in KeysOf(r.idx) : OrdK(r.idx, k) > last[k] + 1 THEN {"C19_PerKeyOrderBroken"} ELSE {})
+                    \* (outside transactional mode a failed batch is sent again as a whole inside the run - "a retried batch may
+                    \* repeat a suffix" -, so a repeat is judged in transactional mode only)
                     \cup (IF meta.txn /\ r.idx \in execd THEN {"C19_TxnCommandExecutedTwice"} ELSE {}))
           /\ last' = [k \in 1..meta.nkeys |-> IF k \in KeysOf(r.idx) THEN OrdK(r.idx, k) ELSE last[k]]
           /\ execd' = execd \cup {r.idx} /\ ever' = ever \cup {r.idx}
